@@ -137,6 +137,27 @@ func TestC04_Filters(t *testing.T) {
 		if unencodable && rapid.Bool().Draw(t, "non-finite-on-cached-path") {
 			path = "cached-delta"
 		}
+		fullList := false
+		if rapid.IntRange(0, 11).Draw(t, "every-platform-named") == 0 {
+			// every major platform named in the list (any order, case, repeats) is still a LIST: an entry
+			// declared for some other system only stays out - also when the all-platforms answer to the
+			// same query was given a moment ago
+			fullList = true
+			src := cmds[rapid.IntRange(0, len(cmds)-1).Draw(t, "foreign-copy-of")]
+			src.Command = rapid.SampledFrom([]string{"systemctl", "ipconfig", "findstr"}).Draw(t, "foreign-first") + " " + src.Command
+			src.Platform = rapid.SampledFrom([][]string{{"freebsd"}, {"solaris"}, {"plan9", "freebsd"}, {"FreeBSD"}}).Draw(t, "foreign-tags")
+			src.Tags = nil
+			cmds = append(append([]database.Command{}, cmds...), src)
+			db = gen.Load(t, cmds)
+			if toks := gen.Tokens([]database.Command{src}); len(toks) > 0 {
+				q, qc = rapid.SampledFrom(toks).Draw(t, "foreign-word"), "foreign-entry-word"
+			}
+			opt.AllPlatforms, opt.NoCrossPlatform, opt.PipelineOnly = false, false, false
+			opt.Platforms = rapid.SampledFrom([][]string{{"linux", "macos", "windows"}, {"windows", "linux", "macos", "linux"}, {"Linux", "MacOS", "Windows"}, {"macos", "windows", "linux"}}).Draw(t, "full-list")
+			if rapid.IntRange(0, 3).Draw(t, "full-list-cached") != 0 {
+				path = "cached-delta"
+			}
+		}
 		var res []database.SearchResult
 		switch path {
 		case "universal":
@@ -148,7 +169,7 @@ func TestC04_Filters(t *testing.T) {
 		case "cached-delta":
 			// warm the cache with the same query under other filter settings first
 			c := database.NewMonitoredDatabase(db)
-			if unencodable {
+			if unencodable || fullList || rapid.Bool().Draw(t, "all-toggles-first") {
 				// every one-field toggle of the filter settings is asked first
 				for f := 0; f < 4; f++ {
 					w := opt
@@ -244,6 +265,9 @@ func TestC04_Filters(t *testing.T) {
 		}
 		if unencodable {
 			labels = append(labels, "non-finite-boost")
+		}
+		if fullList {
+			labels = append(labels, "every-platform-named")
 		}
 		off := opt
 		off.UseFuzzy = false
